@@ -46,13 +46,21 @@ NoBlanks == {}
 FixedNames  == { [on |-> 1, name |-> "N1", t |-> Rect(S1, TRUE, 1, 2, TRUE, 2, 3, TRUE)],          \* kept on S1, refers to S1
                  [on |-> 2, name |-> "N2", t |-> Ref(S1, TRUE, CellG(2, 4, TRUE, TRUE))],         \* kept on My Sheet, refers to S1
                  [on |-> 0, name |-> "",   t |-> Rect(MySheet, TRUE, 1, 1, TRUE, 1, 3, TRUE)] }   \* workbook level
-FixedCharts == { [on |-> 2, i |-> 1, ts |-> << Rect(S1, FALSE, 1, 1, TRUE, 1, 4, TRUE), Rect(MySheet, TRUE, 2, 1, TRUE, 2, 4, TRUE) >>] }
+(* charts: a two-kind and a three-kind combination chart (every kind with a series into S1 and one into My Sheet)
+   next to a single-kind chart; `kinds` names the chart kind of every series (for the driver only) *)
+SerS1(c, r1, r2) == Rect(S1, FALSE, c, r1, TRUE, c, r2, TRUE)
+SerMy(c, r1, r2) == Rect(MySheet, TRUE, c, r1, TRUE, c, r2, TRUE)
+FixedCharts == { [on |-> 1, i |-> 1, kinds |-> <<"line", "line", "bar", "bar">>,
+                  ts |-> << SerS1(1, 1, 4), SerMy(2, 1, 4), SerS1(2, 2, 3), SerMy(1, 2, 4) >>],
+                 [on |-> 2, i |-> 1, kinds |-> <<"line", "line", "bar", "bar", "area", "area">>,
+                  ts |-> << SerS1(1, 1, 4), SerMy(2, 1, 4), SerS1(2, 1, 3), SerMy(3, 2, 4), SerS1(3, 2, 4), SerMy(1, 1, 2) >>],
+                 [on |-> 3, i |-> 1, kinds |-> <<"bar", "bar">>, ts |-> << SerS1(2, 1, 4), SerMy(2, 2, 3) >>] }
 Places == << [s |-> 1, r |-> 3, c |-> 3], [s |-> 2, r |-> 4, c |-> 1], [s |-> 3, r |-> 2, c |-> 2] >>
 
 InitRec(W) == [a |-> "Init", sheets |-> W.sheets,
                cells  |-> {[s |-> x.s, r |-> x.r, c |-> x.c, toks |-> x.f, f |-> Render(x.f)] : x \in W.cells},
                names  |-> {[on |-> x.on, name |-> x.name, tok |-> x.t, addr |-> TokText(x.t)] : x \in W.names},
-               charts |-> {[on |-> x.on, toks |-> x.ts, addrs |-> [j \in DOMAIN x.ts |-> TokText(x.ts[j])]] : x \in W.charts}]
+               charts |-> {[on |-> x.on, toks |-> x.ts, addrs |-> [j \in DOMAIN x.ts |-> TokText(x.ts[j])], kinds |-> x.kinds] : x \in W.charts}]
 
 MCInit == /\ GenInit
           /\ wb = [sheets |-> Sheets, cells |-> {}, names |-> FixedNames, charts |-> FixedCharts]
